@@ -3,6 +3,7 @@
 the current position, read(n) / read(), seek(off, SEEK_SET), getbuffer() (length
 only), close.  Validated against io.BytesIO by ``validate()``."""
 import io as _io
+from vp.harness import unmodelled, unmodelled_attr
 
 
 class TinyBytesIO(object):
@@ -18,10 +19,25 @@ class TinyBytesIO(object):
     def getbuffer(self):
         return self.buf
 
+    def getvalue(self):
+        return self.buf
+
+    def tell(self):
+        return self.pos
+
     def seek(self, off, whence=0):
-        assert whence == 0
-        self.pos = off
-        return off
+        if whence == 0:
+            self.pos = off
+        elif whence == 1:
+            self.pos = self.pos + off
+        elif whence == 2:
+            self.pos = len(self.buf) + off
+        else:
+            unmodelled('BytesIO.seek whence=%r' % (whence,))
+        return self.pos
+
+    def __getattr__(self, name):
+        unmodelled_attr('io.BytesIO.', name)
 
     def read(self, n=-1):
         if n is None or n < 0:
@@ -35,9 +51,15 @@ class TinyBytesIO(object):
         pass
 
 
-class FakeIO(object):
+class _FakeIO(object):
     BytesIO = TinyBytesIO
-    SEEK_SET = 0
+    SEEK_SET, SEEK_CUR, SEEK_END = 0, 1, 2
+
+    def __getattr__(self, name):
+        unmodelled_attr('io.', name)
+
+
+FakeIO = _FakeIO()
 
 
 def validate():
